@@ -129,7 +129,7 @@ def framing_families(tier, rng):
         dict(scale="small", mid=-1, over_add=1, over_abs=0, rest=-1, hdr_cut=16, inter="late", chunker="rand", fill="rand"),     # mid = Max-1
     ]
     mids = [2, 3, 48, 4095, 4096, 65536]
-    n = 2 if tier == "quick" else 10
+    n = 2 if tier == "quick" else 6
     for _ in range(n):
         add = rng.choice([0, 0, 1, 2, 4096])
         fams.append(dict(scale="small", mid=rng.choice(mids), over_add=add,
@@ -318,7 +318,7 @@ def run(c):
                 len(fr_cases), 4 if quick else 6, len(fr_fams))
             inp("framing", "./p2p/v030/", "^TestVerifFraming$",
                 {"hdr_len": 2, "max": 3, "cases": fr_cases, "families": fr_fams, "random_streams": 800 if quick else 8000,
-                 "small_max": SMALL_MAX, "true_every": 12 if quick else 2})
+                 "small_max": SMALL_MAX, "true_every": 12 if quick else 6})
         if "b" in parts:
             c.require_ok(R["hs-mc"], "Handshake design: SameChainOnly, Decision, TwinAccepted, Total, InboundSendsAfterAccept")
             c.require_ok(R["hs-gen"], "Handshake: enumeration of finished runs")
